@@ -279,8 +279,8 @@ class SamplerCore:
         with open(Path(path), "rb") as f:
             d = dill.load(f)
 
-        # Restore state manager
-        self.state.from_dict(d)
+        # Restore state manager (in place: from_dict() is a classmethod building a new one)
+        self.state.update_from_dict(d)
 
         # Ensure all required keys exist with valid types (backward compatibility)
         # Some older state files may be missing certain keys
